@@ -1615,7 +1615,7 @@ package connect
 //@   requires ctx != nil && header != nil
 //@   assigns mapof(header), mapvals(header)
 //@   ensures !callresb("context.Context.Deadline", 1, 1) ==> !hdom(header, "Connect-Timeout-Ms")   // label: no-deadline-no-timeout-header
-//@   ensures callresb("context.Context.Deadline", 1, 1) && callres("time.Until", 1) > 0 && callres("time.Until", 1) / 1000000 < 10000000000 ==> hdom(header, "Connect-Timeout-Ms") && hraw(header, "Connect-Timeout-Ms") == [dec(callres("time.Until", 1) / 1000000)]   // label: timeout-is-the-remaining-time-in-whole-milliseconds
+//@   ensures callresb("context.Context.Deadline", 1, 1) && callres("time.Until", 1) / 1000000 < 10000000000 ==> hdom(header, "Connect-Timeout-Ms") && hraw(header, "Connect-Timeout-Ms") == [dec(if callres("time.Until", 1) <= 0 then 0 else callres("time.Until", 1) / 1000000)]   // label: timeout-is-the-remaining-time-in-whole-milliseconds-zero-once-the-deadline-has-passed-never-absent
 //@   ensures callresb("context.Context.Deadline", 1, 1) && callres("time.Until", 1) / 1000000 >= 10000000000 ==> !hdom(header, "Connect-Timeout-Ms")   // label: too-large-a-timeout-is-omitted-not-truncated
 //@   ensures forall k seq :: {mapdom(header, k)} {mapval(header, k)} k != "Connect-Timeout-Ms" ==> mapdom(header, k) == old(mapdom(header, k)) && mapval(header, k) == old(mapval(header, k))   // label: no-other-header-is-touched
 
